@@ -63,6 +63,14 @@ func gen(rng *rand.Rand, depth int, salt *int64) *ent {
 		} else {
 			*salt++
 			c = &ent{content: vp.Content(rng.Intn(41), *salt)}
+			if len(c.content) >= 12 && rng.Intn(4) == 0 {
+				// a file that repeats a chunk (the chunker cuts every 4 bytes): the same block is
+				// linked several times under one parent
+				copy(c.content[8:12], c.content[0:4])
+				if len(c.content) >= 24 {
+					copy(c.content[12:24], c.content[0:12])
+				}
+			}
 		}
 		c.name = nameParts[perm[i]]
 		e.children = append(e.children, c)
